@@ -453,6 +453,10 @@ PROPS.update({
 
 
 def run_translator(ctx, name):
+    if name == 'formulas':
+        import formulas
+        # C17 relies on the same expressions of update_best_com as C13
+        return formulas.formulas({'C17': 'C13'}.get(ctx.prop, ctx.prop))
     import extract
     return extract.run(ctx, name)
 
